@@ -109,9 +109,11 @@ fn check_one_desc(rep: &Report, prop: Prop, c: &DescCase, thorough: bool, cen: &
     let hl = c.hash_labels();
     let ws = worlds(&c.keys, &hl, &c.afters, &c.olders, thorough);
     let dsx = c.d.sexpr();
-    for w in &ws {
+    // taproot signatures with an explicit sighash byte are one byte longer: C09 measures both kinds
+    let sig_kinds: &[bool] = if prop == Prop::C09 && matches!(c.d, D::Tr(..)) { &[false, true] } else { &[false] };
+    for (w, schnorr_all) in ws.iter().flat_map(|w| sig_kinds.iter().map(move |s| (w, *s))) {
         let spend = make_spend(c.spk.clone(), w.locktime, w.sequence);
-        let sat = WorldSat { world: w, spend: &spend, sign: &c.sign, schnorr_all: false, lie_locks: false, cap: crate::world::SignCap::All };
+        let sat = WorldSat { world: w, spend: &spend, sign: &c.sign, schnorr_all, lie_locks: false, cap: crate::world::SignCap::All };
         for mall in [false, true] {
             bump(cen, "evaluations");
             let mode = if mall { "mall" } else { "nonmall" };
@@ -779,7 +781,9 @@ pub fn run(prop: Prop, tier: Tier) -> i32 {
         .par_iter()
         .fold(Census::new, |mut cen, d| {
             let forms: &[KeyForm] = match d {
-                D::Sh(t) if t.size() <= 3 => &[KeyForm::Compressed, KeyForm::Uncompressed],
+                // multisigs over a mix of compressed and uncompressed keys (sorting and sizes see both forms)
+                D::Sh(T::Multi(..)) | D::Sh(T::SortedMulti(..)) | D::Bare(T::Multi(..)) | D::Bare(T::SortedMulti(..)) => &[KeyForm::Compressed, KeyForm::Uncompressed, KeyForm::Mixed, KeyForm::MixedAlt],
+                D::Sh(t) if t.size() <= 3 => &[KeyForm::Compressed, KeyForm::Uncompressed, KeyForm::Mixed],
                 D::Bare(_) | D::Pkh(_) => &[KeyForm::Compressed, KeyForm::Uncompressed],
                 D::Tr(_, l) if l.len() <= 1 && l.iter().all(|x| x.1.size() <= 3) => {
                     &[KeyForm::Compressed, KeyForm::XOnly]
